@@ -11,11 +11,16 @@ raw(r'''
 // std::mem::take: the old value is returned; nothing is assumed about what is left behind (every caller below overwrites it)
 pub assume_specification<T: Default>[core::mem::take::<T>](dest: &mut T) -> (r: T)
     ensures r == *old(dest);
-''', tag='T:mem-take')
+
+// std: `impl<T> From<T> for T { fn from(t: T) -> T { t } }` (the reflexive conversion behind `x.into()` at the same type)
+pub assume_specification<T>[<T as core::convert::From<T>>::from](t: T) -> (r: T)
+    ensures r == t;
+''', tag='T:mem-take+from-reflexive')
 
 typedef(LH, 'NodeId', rules={'keep_derive': ['Clone', 'Copy', 'PartialEq', 'Eq']})
 typedef(LH, 'EdgeId', rules={'keep_derive': ['Clone', 'Copy', 'PartialEq', 'Eq']})
 typedef(LH, 'Hyperedge')
+typedef(LH, 'Interface')
 typedef(LH, 'Hypergraph')
 typedef(LO, 'OpenHypergraph')
 
@@ -162,7 +167,8 @@ fn(LH, 'new_node', self_ty='Hypergraph', status='P', props=['C11'],
 fn(LH, 'new_edge', self_ty='Hypergraph', status='P', props=['C11'],
    ensures=[('C11.new_edge', '''r.0 == old(self).edges@.len() && final(self).edges@ == old(self).edges@.push(x)
                 && final(self).adjacency@.len() == old(self).adjacency@.len() + 1 && final(self).adjacency@.subrange(0, old(self).adjacency@.len() as int) == old(self).adjacency@
-                && final(self).nodes == old(self).nodes && final(self).quotient == old(self).quotient''')])
+                && final(self).nodes == old(self).nodes && final(self).quotient == old(self).quotient'''),
+            ('C11.new_edge-entry', 'call_ensures(core::convert::Into::into, (interface,), final(self).adjacency@.last())')])
 fn(LH, 'unify', self_ty='Hypergraph', status='P', props=['C11'],
    ensures=[('C11.unify', '''final(self).quotient.0@ == old(self).quotient.0@.push(v) && final(self).quotient.1@ == old(self).quotient.1@.push(w)
                 && final(self).nodes == old(self).nodes && final(self).edges == old(self).edges && final(self).adjacency == old(self).adjacency'''),
@@ -183,4 +189,723 @@ fn(LH, 'add_edge_target', self_ty='Hypergraph', status='P', props=['C11'],
                 && final(self).adjacency@[edge_id.0 as int].targets@ == old(self).adjacency@[edge_id.0 as int].targets@.push(r)
                 && final(self).adjacency@[edge_id.0 as int].sources@ == old(self).adjacency@[edge_id.0 as int].sources@
                 && (forall|j: int| 0 <= j < old(self).adjacency@.len() && j != edge_id.0 ==> (#[trigger] final(self).adjacency@[j]) == old(self).adjacency@[j])''')])
+endgroup()
+
+group('impl<O, A> Hypergraph<O, A>')
+fn(LH, 'new_operation', self_ty='Hypergraph', status='P', props=['C11'], rules={'t9': True},
+   ensures=[('C11.new_operation', '''({ let n0 = old(self).nodes@.len() as int; let ns = source_type@.len() as int; let nt = target_type@.len() as int;
+                r.0.0 == old(self).edges@.len() && final(self).edges@ == old(self).edges@.push(x)
+                && final(self).nodes@ == old(self).nodes@ + source_type@ + target_type@
+                && final(self).quotient == old(self).quotient
+                && final(self).adjacency@.len() == old(self).adjacency@.len() + 1 && final(self).adjacency@.subrange(0, old(self).adjacency@.len() as int) == old(self).adjacency@
+                && r.1.0@.len() == ns && (forall|i: int| 0 <= i < ns ==> (#[trigger] r.1.0@[i]).0 == n0 + i)
+                && r.1.1@.len() == nt && (forall|i: int| 0 <= i < nt ==> (#[trigger] r.1.1@[i]).0 == n0 + ns + i)
+                && final(self).adjacency@.last().sources@ == r.1.0@ && final(self).adjacency@.last().targets@ == r.1.1@ })''')],
+   loops={1: {'iter': 'it', 'elem_ty': 'NodeId', 'invariant': ['vx_v1@.len() == it.index@', 'self.nodes@ == old(self).nodes@ + source_type@.subrange(0, it.index@ as int)',
+                                         'self.edges == old(self).edges', 'self.adjacency == old(self).adjacency', 'self.quotient == old(self).quotient',
+                                         'forall|i: int| 0 <= i < it.index@ ==> (#[trigger] vx_v1@[i]).0 == old(self).nodes@.len() + i']},
+          2: {'iter': 'it', 'elem_ty': 'NodeId', 'invariant': ['vx_v2@.len() == it.index@', 'self.nodes@ == old(self).nodes@ + source_type@ + target_type@.subrange(0, it.index@ as int)',
+                                         'self.edges == old(self).edges', 'self.adjacency == old(self).adjacency', 'self.quotient == old(self).quotient',
+                                         'forall|i: int| 0 <= i < it.index@ ==> (#[trigger] vx_v2@[i]).0 == old(self).nodes@.len() + source_type@.len() + i']}})
+endgroup()
+
+# the open-hypergraph level: one-line delegations plus `singleton`
+group('impl<O, A> OpenHypergraph<O, A>')
+fn(LO, 'empty', self_ty='OpenHypergraph', status='P', props=['C11'],
+   ensures=[('C11.open-empty', 'r.sources@.len() == 0 && r.targets@.len() == 0 && r.hypergraph.nodes@.len() == 0 && r.hypergraph.edges@.len() == 0 && r.hypergraph.adjacency@.len() == 0 && r.hypergraph.quotient.0@.len() == 0 && r.hypergraph.quotient.1@.len() == 0 && r.wf()')])
+fn(LO, 'new_node', self_ty='OpenHypergraph', status='P', props=['C11'],
+   ensures=[('C11.open-new_node', '''r.0 == old(self).hypergraph.nodes@.len() && final(self).hypergraph.nodes@ == old(self).hypergraph.nodes@.push(w)
+                && final(self).hypergraph.edges == old(self).hypergraph.edges && final(self).hypergraph.adjacency == old(self).hypergraph.adjacency && final(self).hypergraph.quotient == old(self).hypergraph.quotient
+                && final(self).sources == old(self).sources && final(self).targets == old(self).targets''')])
+fn(LO, 'new_edge', self_ty='OpenHypergraph', status='P', props=['C11'],
+   ensures=[('C11.open-new_edge', '''r.0 == old(self).hypergraph.edges@.len() && final(self).hypergraph.edges@ == old(self).hypergraph.edges@.push(x)
+                && final(self).hypergraph.adjacency@.len() == old(self).hypergraph.adjacency@.len() + 1
+                && final(self).hypergraph.adjacency@.subrange(0, old(self).hypergraph.adjacency@.len() as int) == old(self).hypergraph.adjacency@
+                && final(self).hypergraph.nodes == old(self).hypergraph.nodes && final(self).hypergraph.quotient == old(self).hypergraph.quotient
+                && final(self).sources == old(self).sources && final(self).targets == old(self).targets''')])
+fn(LO, 'unify', self_ty='OpenHypergraph', status='P', props=['C11'],
+   ensures=[('C11.open-unify', '''final(self).hypergraph.quotient.0@ == old(self).hypergraph.quotient.0@.push(v) && final(self).hypergraph.quotient.1@ == old(self).hypergraph.quotient.1@.push(w)
+                && final(self).hypergraph.nodes == old(self).hypergraph.nodes && final(self).hypergraph.edges == old(self).hypergraph.edges && final(self).hypergraph.adjacency == old(self).hypergraph.adjacency
+                && final(self).sources == old(self).sources && final(self).targets == old(self).targets''')])
+fn(LO, 'add_edge_source', self_ty='OpenHypergraph', status='P', props=['C11'],
+   requires=['edge_id.0 < old(self).hypergraph.adjacency@.len()'],
+   ensures=[('C11.open-add_edge_source', '''r.0 == old(self).hypergraph.nodes@.len() && final(self).hypergraph.nodes@ == old(self).hypergraph.nodes@.push(w)
+                && final(self).hypergraph.adjacency@.len() == old(self).hypergraph.adjacency@.len()
+                && final(self).hypergraph.adjacency@[edge_id.0 as int].sources@ == old(self).hypergraph.adjacency@[edge_id.0 as int].sources@.push(r)
+                && final(self).sources == old(self).sources && final(self).targets == old(self).targets''')])
+fn(LO, 'add_edge_target', self_ty='OpenHypergraph', status='P', props=['C11'],
+   requires=['edge_id.0 < old(self).hypergraph.adjacency@.len()'],
+   ensures=[('C11.open-add_edge_target', '''r.0 == old(self).hypergraph.nodes@.len() && final(self).hypergraph.nodes@ == old(self).hypergraph.nodes@.push(w)
+                && final(self).hypergraph.adjacency@.len() == old(self).hypergraph.adjacency@.len()
+                && final(self).hypergraph.adjacency@[edge_id.0 as int].targets@ == old(self).hypergraph.adjacency@[edge_id.0 as int].targets@.push(r)
+                && final(self).sources == old(self).sources && final(self).targets == old(self).targets''')])
+fn(LO, 'new_operation', self_ty='OpenHypergraph', status='P', props=['C11'],
+   ensures=[('C11.open-new_operation', '''({ let n0 = old(self).hypergraph.nodes@.len() as int; let ns = source_type@.len() as int; let nt = target_type@.len() as int;
+                r.0.0 == old(self).hypergraph.edges@.len() && final(self).hypergraph.edges@ == old(self).hypergraph.edges@.push(x)
+                && final(self).hypergraph.nodes@ == old(self).hypergraph.nodes@ + source_type@ + target_type@
+                && final(self).hypergraph.adjacency@.len() == old(self).hypergraph.adjacency@.len() + 1
+                && r.1.0@.len() == ns && (forall|i: int| 0 <= i < ns ==> (#[trigger] r.1.0@[i]).0 == n0 + i)
+                && r.1.1@.len() == nt && (forall|i: int| 0 <= i < nt ==> (#[trigger] r.1.1@[i]).0 == n0 + ns + i)
+                && final(self).hypergraph.adjacency@.last().sources@ == r.1.0@ && final(self).hypergraph.adjacency@.last().targets@ == r.1.1@
+                && final(self).hypergraph.adjacency@.subrange(0, old(self).hypergraph.adjacency@.len() as int) == old(self).hypergraph.adjacency@
+                && final(self).hypergraph.quotient == old(self).hypergraph.quotient
+                && final(self).sources == old(self).sources && final(self).targets == old(self).targets })''')])
+fn(LO, 'singleton', self_ty='OpenHypergraph', status='P', props=['C11', 'C10'],
+   ensures=[('C11.open-singleton', '''({ let ns = source_type@.len() as int; let nt = target_type@.len() as int;
+                r.hypergraph.nodes@ =~= source_type@ + target_type@ && r.hypergraph.edges@ =~= seq![x] && r.hypergraph.adjacency@.len() == 1
+                && r.hypergraph.quotient.0@.len() == 0 && r.hypergraph.quotient.1@.len() == 0
+                && r.sources@.len() == ns && (forall|i: int| 0 <= i < ns ==> (#[trigger] r.sources@[i]).0 == i)
+                && r.targets@.len() == nt && (forall|i: int| 0 <= i < nt ==> (#[trigger] r.targets@[i]).0 == ns + i)
+                && r.hypergraph.adjacency@[0].sources@ == r.sources@ && r.hypergraph.adjacency@[0].targets@ == r.targets@ })''')])
+endgroup()
+
+group('impl<O, A> OpenHypergraph<O, A>')
+fn(LO, 'identity', self_ty='OpenHypergraph', status='P', props=['C10', 'C04'], rules={'t9': True},
+   ensures=[('C10.lax-identity', '''r.hypergraph.nodes == a && r.hypergraph.edges@.len() == 0 && r.hypergraph.adjacency@.len() == 0
+                && r.hypergraph.quotient.0@.len() == 0 && r.hypergraph.quotient.1@.len() == 0
+                && r.sources@.len() == a@.len() && r.targets@.len() == a@.len()
+                && (forall|i: int| 0 <= i < a@.len() ==> (#[trigger] r.sources@[i]).0 == i && (#[trigger] r.targets@[i]).0 == i) && r.wf()''')],
+   loops={1: {'iter': 'it', 'elem_ty': 'NodeId', 'invariant': ['vx_v1@.len() == it.index@', 'forall|i: int| 0 <= i < it.index@ ==> (#[trigger] vx_v1@[i]).0 == i']},
+          2: {'iter': 'it', 'elem_ty': 'NodeId', 'invariant': ['vx_v2@.len() == it.index@', 'forall|i: int| 0 <= i < it.index@ ==> (#[trigger] vx_v2@[i]).0 == i']}})
+fn(LO, 'spider', self_ty='OpenHypergraph', status='P', props=['C10', 'C04'], rules={'t9': True},
+   requires=['s.wf()', 't.wf()'],
+   ensures=[('C04.lax-spider-iff', 'r.is_some() <==> (s.target == t.target && s.target == w@.len())'),
+            ('C04.lax-spider', '''r.is_some() ==> ({ let f = r.unwrap(); f.hypergraph.nodes == w && f.hypergraph.edges@.len() == 0 && f.hypergraph.adjacency@.len() == 0
+                && f.hypergraph.quotient.0@.len() == 0 && f.hypergraph.quotient.1@.len() == 0
+                && ids(f.sources@) =~= s.table@ && ids(f.targets@) =~= t.table@ && f.wf() })''')],
+   loops={1: {'iter': 'it', 'elem_ty': 'NodeId', 'invariant': ['vx_v1@.len() == it.index@', 'forall|i: int| 0 <= i < it.index@ ==> (#[trigger] vx_v1@[i]).0 == s.table@[i]']},
+          2: {'iter': 'it', 'elem_ty': 'NodeId', 'invariant': ['vx_v2@.len() == it.index@', 'forall|i: int| 0 <= i < it.index@ ==> (#[trigger] vx_v2@[i]).0 == t.table@[i]']}})
+endgroup()
+
+LC = 'src/lax/category.rs'
+group('impl<O: Clone + PartialEq, A: Clone> OpenHypergraph<O, A>')
+fn(LC, 'source', trait='Arrow', self_ty='OpenHypergraph', status='P', props=['C10', 'C05'], rename='lax_source', rules={'t9': True, 'subst': {'Self::Object': 'Vec<O>'}},
+   requires=['self.wf()'],
+   ensures=[('C10.lax-source', 'r@.len() == self.sources@.len() && (lawful_clone::<O>() ==> forall|k: int| 0 <= k < self.sources@.len() ==> r@[k] == self.hypergraph.nodes@[self.sources@[k].0 as int])')],
+   loops={1: {'iter': 'it', 'elem_ty': 'O', 'invariant': ['self.wf()', 'vx_v1@.len() == it.index@', 'it.seq().len() == self.sources@.len()', 'forall|k: int| 0 <= k < self.sources@.len() ==> *it.seq()[k] == self.sources@[k]',
+                                         'lawful_clone::<O>() ==> forall|k: int| 0 <= k < it.index@ ==> vx_v1@[k] == self.hypergraph.nodes@[self.sources@[k].0 as int]']}})
+fn(LC, 'target', trait='Arrow', self_ty='OpenHypergraph', status='P', props=['C10', 'C05'], rename='lax_target', rules={'t9': True, 'subst': {'Self::Object': 'Vec<O>'}},
+   requires=['self.wf()'],
+   ensures=[('C10.lax-target', 'r@.len() == self.targets@.len() && (lawful_clone::<O>() ==> forall|k: int| 0 <= k < self.targets@.len() ==> r@[k] == self.hypergraph.nodes@[self.targets@[k].0 as int])')],
+   loops={1: {'iter': 'it', 'elem_ty': 'O', 'invariant': ['self.wf()', 'vx_v1@.len() == it.index@', 'it.seq().len() == self.targets@.len()', 'forall|k: int| 0 <= k < self.targets@.len() ==> *it.seq()[k] == self.targets@[k]',
+                                         'lawful_clone::<O>() ==> forall|k: int| 0 <= k < it.index@ ==> vx_v1@[k] == self.hypergraph.nodes@[self.targets@[k].0 as int]']}})
+endgroup()
+
+# ---------------------------------------------------------------------------------------------
+# C10: forgetting the (empty) quotient map: lax -> strict hypergraph
+# ---------------------------------------------------------------------------------------------
+raw(r'''
+pub open spec fn src_lens(adj: Seq<Hyperedge>) -> Seq<usize> { Seq::new(adj.len(), |i: int| adj[i].sources@.len() as usize) }
+pub open spec fn tgt_lens(adj: Seq<Hyperedge>) -> Seq<usize> { Seq::new(adj.len(), |i: int| adj[i].targets@.len() as usize) }
+
+/// the strict hypergraph `s` has exactly the data of the lax hypergraph `h` (pending unifications aside): same node and edge
+/// labels, hyperedge i has the source list and the target list of adjacency entry i, in order
+pub open spec fn is_strict_of<O, A>(s: crate::hypergraph::Hypergraph<O, A>, h: Hypergraph<O, A>) -> bool {
+    let sl = src_lens(h.adjacency@); let tl = tgt_lens(h.adjacency@);
+    &&& s.wf()
+    &&& s.w@.len() == h.nodes@.len() && s.x@.len() == h.edges@.len()
+    &&& s.s.sources.table@ =~= sl && s.t.sources.table@ =~= tl
+    &&& (forall|i: int, j: int| 0 <= i < h.adjacency@.len() && 0 <= j < sl[i] ==> s.s.values.table@[#[trigger] seg_at(sl, i, j)] == h.adjacency@[i].sources@[j].0)
+    &&& (forall|i: int, j: int| 0 <= i < h.adjacency@.len() && 0 <= j < tl[i] ==> s.t.values.table@[#[trigger] seg_at(tl, i, j)] == h.adjacency@[i].targets@[j].0)
+}
+
+pub proof fn lemma_psum_push(s: Seq<usize>, x: usize, i: int)
+    requires 0 <= i <= s.len()
+    ensures psum(s.push(x), i) == psum(s, i), psum(s.push(x), s.len() as int + 1) == psum(s, s.len() as int) + x
+{
+    lemma_psum_prefix(s.push(x), s, i);
+    lemma_psum_prefix(s.push(x), s, s.len() as int);
+}
+''')
+
+fn(LH, 'make_hypergraph', kind='free', status='P', props=['C10'], rules={'t9': True, 'subst': {'crate::strict::hypergraph::Hypergraph': 'crate::hypergraph::Hypergraph'}},
+   where_add='O: Clone, A: Clone',
+   requires=['h.wf()', 'total(src_lens(h.adjacency@)) < usize::MAX', 'total(tgt_lens(h.adjacency@)) < usize::MAX', 'h.adjacency@.len() < usize::MAX'],
+   ensures=[('C10.make_hypergraph', 'is_strict_of(r, *h)'),
+            ('C10.make_hypergraph-labels', '(lawful_clone::<O>() ==> r.w@ == h.nodes@) && (lawful_clone::<A>() ==> r.x@ == h.edges@)')],
+   loops={1: {'iter': 'it', 'invariant': ['h.wf()', 'it.seq().len() == h.adjacency@.len()', 'forall|k: int| 0 <= k < h.adjacency@.len() ==> *it.seq()[k] == h.adjacency@[k]', 'lengths@.len() == it.index@', 'forall|i: int| 0 <= i < it.index@ ==> lengths@[i] == h.adjacency@[i].sources@.len()', 'values@.len() == psum(lengths@, it.index@ as int)', 'in_bounds(values@, h.nodes@.len() as int)', 'forall|i: int, j: int| 0 <= i < it.index@ && 0 <= j < lengths@[i] ==> values@[#[trigger] seg_at(lengths@, i, j)] == h.adjacency@[i].sources@[j].0']}, 2: {'iter': 'it2', 'invariant': ['it2.seq().len() == e.sources@.len()', 'forall|k: int| 0 <= k < e.sources@.len() ==> *it2.seq()[k] == e.sources@[k]', 'ids_ok(e.sources@, h.nodes@.len() as int)', 'lengths@ == lens1', 'values@.len() == base + it2.index@', 'in_bounds(values@, h.nodes@.len() as int)', 'forall|m: int| 0 <= m < base ==> values@[m] == vals0[m]', 'forall|j: int| 0 <= j < it2.index@ ==> values@[base + j] == e.sources@[j].0']}, 3: {'iter': 'it', 'invariant': ['h.wf()', 'it.seq().len() == h.adjacency@.len()', 'forall|k: int| 0 <= k < h.adjacency@.len() ==> *it.seq()[k] == h.adjacency@[k]', 'lengths@.len() == it.index@', 'forall|i: int| 0 <= i < it.index@ ==> lengths@[i] == h.adjacency@[i].targets@.len()', 'values@.len() == psum(lengths@, it.index@ as int)', 'in_bounds(values@, h.nodes@.len() as int)', 'forall|i: int, j: int| 0 <= i < it.index@ && 0 <= j < lengths@[i] ==> values@[#[trigger] seg_at(lengths@, i, j)] == h.adjacency@[i].targets@[j].0']}, 4: {'iter': 'it2', 'invariant': ['it2.seq().len() == e.targets@.len()', 'forall|k: int| 0 <= k < e.targets@.len() ==> *it2.seq()[k] == e.targets@[k]', 'ids_ok(e.targets@, h.nodes@.len() as int)', 'lengths@ == lens1', 'values@.len() == base + it2.index@', 'in_bounds(values@, h.nodes@.len() as int)', 'forall|m: int| 0 <= m < base ==> values@[m] == vals0[m]', 'forall|j: int| 0 <= j < it2.index@ ==> values@[base + j] == e.targets@[j].0']}},
+   proofs=[G('before:lengths.push(e.sources.len());', 'let ghost lens0 = lengths@; let ghost base = values@.len() as int; let ghost vals0 = values@; let ghost idx = it.index@ as int; proof { assert(*e == h.adjacency@[idx]); }'),
+           G('before:values.extend(e.sources.iter().map(|x| x.0));', 'let ghost lens1 = lengths@;'),
+           ('after:values.extend(e.sources.iter().map(|x| x.0));', '''let ln = e.sources@.len() as usize;
+            assert(lens1 =~= lens0.push(ln));
+            assert forall|i: int| 0 <= i <= idx implies psum(lens1, i) == psum(lens0, i) by { lemma_psum_push(lens0, ln, i); }
+            lemma_psum_push(lens0, ln, idx);
+            assert(psum(lens1, idx + 1) == base + ln);
+            assert forall|i: int, j: int| 0 <= i < idx + 1 && 0 <= j < lens1[i] implies values@[#[trigger] seg_at(lens1, i, j)] == h.adjacency@[i].sources@[j].0 by {
+                if i < idx { assert(psum(lens1, i) == psum(lens0, i)); assert(seg_at(lens1, i, j) == seg_at(lens0, i, j)); lemma_psum_mono(lens0, i + 1, idx); assert(psum(lens0, i + 1) == psum(lens0, i) + lens0[i]); assert(lens0[i] == lens1[i]);
+                    let m = seg_at(lens0, i, j); lemma_psum_mono(lens0, 0, i); assert(base == psum(lens0, idx)); assert(0 <= m < base); assert(values@[m] == vals0[m]); assert(vals0[seg_at(lens0, i, j)] == h.adjacency@[i].sources@[j].0); }
+                else { assert(i == idx); assert(psum(lens1, idx) == psum(lens0, idx)); assert(seg_at(lens1, i, j) == base + j); assert(lens1[idx] == ln); assert(values@[base + j] == e.sources@[j].0); }
+            }'''),
+           ('before#1:let sources = SemifiniteFunction(VecArray(lengths));', '''assert(lengths@ =~= src_lens(h.adjacency@));'''),
+           G('before:lengths.push(e.targets.len());', 'let ghost lens0 = lengths@; let ghost base = values@.len() as int; let ghost vals0 = values@; let ghost idx = it.index@ as int; proof { assert(*e == h.adjacency@[idx]); }'),
+           G('before:values.extend(e.targets.iter().map(|x| x.0));', 'let ghost lens1 = lengths@;'),
+           ('after:values.extend(e.targets.iter().map(|x| x.0));', '''let ln = e.targets@.len() as usize;
+            assert(lens1 =~= lens0.push(ln));
+            assert forall|i: int| 0 <= i <= idx implies psum(lens1, i) == psum(lens0, i) by { lemma_psum_push(lens0, ln, i); }
+            lemma_psum_push(lens0, ln, idx);
+            assert(psum(lens1, idx + 1) == base + ln);
+            assert forall|i: int, j: int| 0 <= i < idx + 1 && 0 <= j < lens1[i] implies values@[#[trigger] seg_at(lens1, i, j)] == h.adjacency@[i].targets@[j].0 by {
+                if i < idx { assert(psum(lens1, i) == psum(lens0, i)); assert(seg_at(lens1, i, j) == seg_at(lens0, i, j)); lemma_psum_mono(lens0, i + 1, idx); assert(psum(lens0, i + 1) == psum(lens0, i) + lens0[i]); assert(lens0[i] == lens1[i]);
+                    let m = seg_at(lens0, i, j); lemma_psum_mono(lens0, 0, i); assert(base == psum(lens0, idx)); assert(0 <= m < base); assert(values@[m] == vals0[m]); assert(vals0[seg_at(lens0, i, j)] == h.adjacency@[i].targets@[j].0); }
+                else { assert(i == idx); assert(psum(lens1, idx) == psum(lens0, idx)); assert(seg_at(lens1, i, j) == base + j); assert(lens1[idx] == ln); assert(values@[base + j] == e.targets@[j].0); }
+            }'''),
+           ('before#2:let sources = SemifiniteFunction(VecArray(lengths));', '''assert(lengths@ =~= tgt_lens(h.adjacency@));''')])
+
+group('impl<O: Clone, A: Clone> Hypergraph<O, A>')
+fn(LH, 'to_hypergraph', self_ty='Hypergraph', status='P', props=['C10'], rules={'subst': {'crate::strict::Hypergraph': 'crate::hypergraph::Hypergraph'}},
+   requires=['self.wf()', 'total(src_lens(self.adjacency@)) < usize::MAX', 'total(tgt_lens(self.adjacency@)) < usize::MAX', 'self.adjacency@.len() < usize::MAX'],
+   ensures=[('C10.to_hypergraph', 'is_strict_of(r, *self)'),
+            ('C10.to_hypergraph-labels', '(lawful_clone::<O>() ==> r.w@ == self.nodes@) && (lawful_clone::<A>() ==> r.x@ == self.edges@)')])
+endgroup()
+
+raw(r'''
+// `Result<FiniteFunction, FiniteFunction>::unwrap()` needs `FiniteFunction: Debug` to compile (only used to format the panic
+// message; /repo has a hand-written impl); outside verification
+#[verifier::external]
+impl core::fmt::Debug for FiniteFunction {
+    fn fmt(&self, f: &mut core::fmt::Formatter<'_>) -> core::fmt::Result { f.write_str("FiniteFunction") }
+}
+
+/// the pending unifications only relate nodes with equal labels (what `to_strict` needs: its quotient().unwrap() cannot fail)
+pub open spec fn unifiable<O, A>(h: Hypergraph<O, A>) -> bool {
+    forall|q: Seq<usize>, k: int| #[trigger] is_coeq(q, k, ids(h.quotient.0@), ids(h.quotient.1@), h.nodes@.len() as int) ==> constant_on_fibres(q, h.nodes@)
+}
+
+/// C10: `s` is the strictification of the lax diagram `f`: quotient, then read off the same data
+pub open spec fn is_strictification<O: Clone, A: Clone>(s: crate::open_hypergraph::OpenHypergraph<O, A>, f: OpenHypergraph<O, A>) -> bool {
+    exists|mid: OpenHypergraph<O, A>, q: FiniteFunction|
+        #[trigger] is_quotient_of(f.hypergraph, mid.hypergraph, q)
+        && mapped(f.sources@, mid.sources@, q.table@) && mapped(f.targets@, mid.targets@, q.table@)
+        && is_strict_of(s.h, mid.hypergraph) && s.s.table@ =~= ids(mid.sources@) && s.t.table@ =~= ids(mid.targets@)
+        && (lawful_clone::<O>() ==> s.h.w@ == mid.hypergraph.nodes@) && (lawful_clone::<A>() ==> s.h.x@ == mid.hypergraph.edges@)
+}
+''')
+
+group('impl<O: Clone + PartialEq, A: Clone> OpenHypergraph<O, A>')
+fn(LO, 'to_strict', self_ty='OpenHypergraph', status='P', props=['C10'],
+   rules={'t9': True, 'self_rename': ['this', 'OpenHypergraph<O, A>'], 'subst': {'crate::strict::OpenHypergraph': 'crate::open_hypergraph::OpenHypergraph', 'OpenHypergraph': 'crate::open_hypergraph::OpenHypergraph'}},
+   requires=['this_in.wf()', 'unifiable(this_in.hypergraph)', 'lawful_clone::<O>()', 'lawful_eq::<O>()',
+             'total(src_lens(this_in.hypergraph.adjacency@)) < usize::MAX', 'total(tgt_lens(this_in.hypergraph.adjacency@)) < usize::MAX', 'this_in.hypergraph.adjacency@.len() < usize::MAX'],
+   ensures=[('C10.to_strict', 'is_strictification(r, this_in)'),
+            ('C10.to_strict-wf', 'r.wf()')],
+   loops={1: {'iter': 'it', 'elem_ty': 'usize', 'invariant': ['vx_v1@.len() == it.index@', 'it.seq().len() == this.sources@.len()', 'forall|k: int| 0 <= k < this.sources@.len() ==> *it.seq()[k] == this.sources@[k]',
+                                                             'forall|k: int| 0 <= k < it.index@ ==> vx_v1@[k] == this.sources@[k].0']},
+          2: {'iter': 'it', 'elem_ty': 'usize', 'invariant': ['vx_v2@.len() == it.index@', 'it.seq().len() == this.targets@.len()', 'forall|k: int| 0 <= k < this.targets@.len() ==> *it.seq()[k] == this.targets@[k]',
+                                                             'forall|k: int| 0 <= k < it.index@ ==> vx_v2@[k] == this.targets@[k].0']}},
+   proofs=[('after:self.quotient().unwrap();', '''assert(src_lens(this.hypergraph.adjacency@) =~= src_lens(this_in.hypergraph.adjacency@));
+            assert(tgt_lens(this.hypergraph.adjacency@) =~= tgt_lens(this_in.hypergraph.adjacency@));''')])
+endgroup()
+
+raw(r'''
+/// C10: the lax hypergraph `l` has exactly the data of the strict hypergraph `h`: same labels, adjacency entry i = (segment i of
+/// h.s, segment i of h.t), nothing pending
+pub open spec fn is_lax_of<O, A>(l: Hypergraph<O, A>, h: crate::hypergraph::Hypergraph<O, A>) -> bool {
+    let ss = h.s.sources.table@; let ts = h.t.sources.table@;
+    &&& l.nodes@ == h.w@ && l.edges@ == h.x@ && l.quotient.0@.len() == 0 && l.quotient.1@.len() == 0
+    &&& l.adjacency@.len() == h.x@.len()
+    &&& (forall|i: int| 0 <= i < h.x@.len() ==> (#[trigger] l.adjacency@[i]).sources@.len() == ss[i] && l.adjacency@[i].targets@.len() == ts[i])
+    &&& (forall|i: int, j: int| 0 <= i < h.x@.len() && 0 <= j < ss[i] ==> l.adjacency@[i].sources@[j].0 == h.s.values.table@[#[trigger] seg_at(ss, i, j)])
+    &&& (forall|i: int, j: int| 0 <= i < h.x@.len() && 0 <= j < ts[i] ==> l.adjacency@[i].targets@[j].0 == h.t.values.table@[#[trigger] seg_at(ts, i, j)])
+}
+''')
+
+group('impl<O, A> Hypergraph<O, A>')
+fn(LH, 'from_strict', self_ty='Hypergraph', status='P', props=['C10'],
+   rules={'t9': True, 't17': True, 'let_ty': {'adjacency': 'Vec<Hyperedge>'}, 'subst': {'crate::strict::hypergraph::Hypergraph': 'crate::hypergraph::Hypergraph'}},
+   requires=['h.wf()', 'h.x@.len() < usize::MAX'],
+   ensures=[('C10.from_strict', 'is_lax_of(r, h)'), ('C10.from_strict-wf', 'r.wf()')],
+   loops={1: {'invariant': ['hs.wf() && ht.wf()', 'hs.sources.table@.len() == ht.sources.table@.len()',
+                            'vx_za1.values == hs.values && vx_zb1.values == ht.values',
+                            'vx_za1.pointers@.len() == hs.sources.table@.len() + 1 && vx_zb1.pointers@.len() == ht.sources.table@.len() + 1',
+                            'forall|i: int| 0 <= i <= hs.sources.table@.len() ==> vx_za1.pointers@[i] == psum(hs.sources.table@, i)',
+                            'forall|i: int| 0 <= i <= ht.sources.table@.len() ==> vx_zb1.pointers@[i] == psum(ht.sources.table@, i)',
+                            'ptr_wf(vx_za1.pointers@, hs.values.table@.len() as int, vx_za1.index as int)', 'ptr_wf(vx_zb1.pointers@, ht.values.table@.len() as int, vx_zb1.index as int)',
+                            'vx_za1.index == adjacency@.len() && vx_zb1.index == adjacency@.len()',
+                            '''forall|i: int| 0 <= i < adjacency@.len() ==> ids((#[trigger] adjacency@[i]).sources@) =~= hs.values.table@.subrange(psum(hs.sources.table@, i), psum(hs.sources.table@, i + 1))
+                                && ids(adjacency@[i].targets@) =~= ht.values.table@.subrange(psum(ht.sources.table@, i), psum(ht.sources.table@, i + 1))
+                                && ids_ok(adjacency@[i].sources@, hs.values.target as int) && ids_ok(adjacency@[i].targets@, ht.values.target as int)'''],
+              'ensures': ['adjacency@.len() == hs.sources.table@.len()'],
+              'decreases': 'vx_za1.pointers@.len() - vx_za1.index'},
+          2: {'iter': 'it', 'elem_ty': 'NodeId', 'invariant': ['vx_v2@.len() == it.index@', 'it.seq().len() == sources.table@.len()', 'forall|k: int| 0 <= k < sources.table@.len() ==> *it.seq()[k] == sources.table@[k]',
+                                                              'forall|k: int| 0 <= k < it.index@ ==> (#[trigger] vx_v2@[k]).0 == sources.table@[k]']},
+          3: {'iter': 'it', 'elem_ty': 'NodeId', 'invariant': ['vx_v3@.len() == it.index@', 'it.seq().len() == targets.table@.len()', 'forall|k: int| 0 <= k < targets.table@.len() ==> *it.seq()[k] == targets.table@[k]',
+                                                              'forall|k: int| 0 <= k < it.index@ ==> (#[trigger] vx_v3@[k]).0 == targets.table@[k]']}},
+   proofs=[G('start', 'let ghost hs = h.s; let ghost ht = h.t;'),
+           ('end', '''let ss = hs.sources.table@; let ts = ht.sources.table@; let n = ss.len() as int;
+            assert forall|i: int| 0 <= i < n implies (#[trigger] adjacency@[i]).sources@.len() == ss[i] && adjacency@[i].targets@.len() == ts[i]
+                    && (forall|j: int| 0 <= j < ss[i] ==> adjacency@[i].sources@[j].0 == hs.values.table@[seg_at(ss, i, j)])
+                    && (forall|j: int| 0 <= j < ts[i] ==> adjacency@[i].targets@[j].0 == ht.values.table@[seg_at(ts, i, j)]) by {
+                lemma_psum_mono(ss, 0, i); lemma_psum_mono(ss, i + 1, n); lemma_psum_mono(ts, 0, i); lemma_psum_mono(ts, i + 1, n);
+                assert(psum(ss, i + 1) == psum(ss, i) + ss[i] && psum(ts, i + 1) == psum(ts, i) + ts[i]);
+                let a = ids(adjacency@[i].sources@); let b = hs.values.table@.subrange(psum(ss, i), psum(ss, i + 1));
+                assert(a.len() == b.len());
+                assert forall|j: int| 0 <= j < ss[i] implies adjacency@[i].sources@[j].0 == hs.values.table@[seg_at(ss, i, j)] by { assert(a[j] == b[j]); }
+                let c = ids(adjacency@[i].targets@); let d = ht.values.table@.subrange(psum(ts, i), psum(ts, i + 1));
+                assert(c.len() == d.len());
+                assert forall|j: int| 0 <= j < ts[i] implies adjacency@[i].targets@[j].0 == ht.values.table@[seg_at(ts, i, j)] by { assert(c[j] == d[j]); }
+            }''')])
+endgroup()
+
+group('impl<O, A> OpenHypergraph<O, A>')
+fn(LO, 'from_strict', self_ty='OpenHypergraph', status='P', props=['C10'],
+   rules={'t9': True, 'subst': {'crate::strict::open_hypergraph::OpenHypergraph': 'crate::open_hypergraph::OpenHypergraph'}},
+   requires=['f.wf()', 'f.h.x@.len() < usize::MAX'],
+   ensures=[('C10.open-from_strict', 'ids(r.sources@) =~= f.s.table@ && ids(r.targets@) =~= f.t.table@ && is_lax_of(r.hypergraph, f.h)'),
+            ('C10.open-from_strict-wf', 'r.wf()')],
+   loops={1: {'iter': 'it', 'elem_ty': 'NodeId', 'invariant': ['vx_v1@.len() == it.index@', 'forall|k: int| 0 <= k < it.index@ ==> (#[trigger] vx_v1@[k]).0 == f.s.table@[k]']},
+          2: {'iter': 'it', 'elem_ty': 'NodeId', 'invariant': ['vx_v2@.len() == it.index@', 'forall|k: int| 0 <= k < it.index@ ==> (#[trigger] vx_v2@[k]).0 == f.t.table@[k]']}})
+endgroup()
+
+raw(r'''
+/// C10 round trip at the hypergraph level: strict -> lax -> strict returns the same incidence data
+pub proof fn lemma_roundtrip_strict<O, A>(h: crate::hypergraph::Hypergraph<O, A>, l: Hypergraph<O, A>, s2: crate::hypergraph::Hypergraph<O, A>)
+    requires h.wf(), is_lax_of(l, h), is_strict_of(s2, l)
+    ensures s2.s.sources.table@ =~= h.s.sources.table@, s2.t.sources.table@ =~= h.t.sources.table@,
+        s2.s.values.table@ =~= h.s.values.table@, s2.t.values.table@ =~= h.t.values.table@,
+        s2.w@.len() == h.w@.len() && s2.x@.len() == h.x@.len(),
+{
+    let ss = h.s.sources.table@; let ts = h.t.sources.table@; let n = h.x@.len() as int;
+    let sl = src_lens(l.adjacency@); let tl = tgt_lens(l.adjacency@);
+    assert(sl =~= ss && tl =~= ts);
+    assert(s2.s.values.table@.len() == h.s.values.table@.len() && s2.t.values.table@.len() == h.t.values.table@.len());
+    assert forall|m: int| 0 <= m < h.s.values.table@.len() implies s2.s.values.table@[m] == h.s.values.table@[m] by {
+        let (i, j) = lemma_seg_find(ss, m);
+        assert(s2.s.values.table@[seg_at(sl, i, j)] == l.adjacency@[i].sources@[j].0);
+        assert(l.adjacency@[i].sources@[j].0 == h.s.values.table@[seg_at(ss, i, j)]);
+    }
+    assert forall|m: int| 0 <= m < h.t.values.table@.len() implies s2.t.values.table@[m] == h.t.values.table@[m] by {
+        let (i, j) = lemma_seg_find(ts, m);
+        assert(s2.t.values.table@[seg_at(tl, i, j)] == l.adjacency@[i].targets@[j].0);
+        assert(l.adjacency@[i].targets@[j].0 == h.t.values.table@[seg_at(ts, i, j)]);
+    }
+}
+''')
+
+raw(r'''
+/// C10 round trip at the diagram level: strict -> lax -> strict returns the diagram renumbered by a node bijection, hyperedges in
+/// place (the bijection is the coequalizer of NO pairs that `to_strict` computes; on the Vec backend it is the identity, which the
+/// bounded module checks)
+pub proof fn lemma_roundtrip_open<O: Clone, A: Clone>(f: crate::open_hypergraph::OpenHypergraph<O, A>, l: OpenHypergraph<O, A>, r: crate::open_hypergraph::OpenHypergraph<O, A>) -> (phi: Seq<usize>)
+    requires f.wf(), lawful_clone::<O>(), lawful_clone::<A>(),
+        ids(l.sources@) =~= f.s.table@, ids(l.targets@) =~= f.t.table@, is_lax_of(l.hypergraph, f.h),
+        is_strictification(r, l),
+    ensures node_iso(f, r, phi)
+{
+    let (mid, q) = choose|mid: OpenHypergraph<O, A>, q: FiniteFunction|
+        #[trigger] is_quotient_of(l.hypergraph, mid.hypergraph, q)
+        && mapped(l.sources@, mid.sources@, q.table@) && mapped(l.targets@, mid.targets@, q.table@)
+        && is_strict_of(r.h, mid.hypergraph) && r.s.table@ =~= ids(mid.sources@) && r.t.table@ =~= ids(mid.targets@)
+        && (lawful_clone::<O>() ==> r.h.w@ == mid.hypergraph.nodes@) && (lawful_clone::<A>() ==> r.h.x@ == mid.hypergraph.edges@);
+    let n = f.h.w@.len() as int; let ne = f.h.x@.len() as int;
+    let ss = f.h.s.sources.table@; let ts = f.h.t.sources.table@;
+    let phi = q.table@;
+    vstd::std_specs::vec::axiom_spec_len(&f.h.w.0.0);
+    lemma_coeq_empty(q.table@, q.target as int, ids(l.hypergraph.quotient.0@), ids(l.hypergraph.quotient.1@), n);
+    let sl = src_lens(mid.hypergraph.adjacency@); let tl = tgt_lens(mid.hypergraph.adjacency@);
+    assert(sl =~= ss && tl =~= ts);
+    assert(r.h.s.sources.table@ =~= ss && r.h.t.sources.table@ =~= ts);
+    assert(in_bounds(phi, n));
+    assert forall|m: int| 0 <= m < f.h.s.values.table@.len() implies (#[trigger] r.h.s.values.table@[m]) == phi[f.h.s.values.table@[m] as int] by {
+        let (i, j) = lemma_seg_find(ss, m);
+        assert(r.h.s.values.table@[seg_at(sl, i, j)] == mid.hypergraph.adjacency@[i].sources@[j].0);
+        assert(mid.hypergraph.adjacency@[i].sources@[j].0 == phi[l.hypergraph.adjacency@[i].sources@[j].0 as int]);
+        assert(l.hypergraph.adjacency@[i].sources@[j].0 == f.h.s.values.table@[seg_at(ss, i, j)]);
+    }
+    assert forall|m: int| 0 <= m < f.h.t.values.table@.len() implies (#[trigger] r.h.t.values.table@[m]) == phi[f.h.t.values.table@[m] as int] by {
+        let (i, j) = lemma_seg_find(ts, m);
+        assert(r.h.t.values.table@[seg_at(tl, i, j)] == mid.hypergraph.adjacency@[i].targets@[j].0);
+        assert(mid.hypergraph.adjacency@[i].targets@[j].0 == phi[l.hypergraph.adjacency@[i].targets@[j].0 as int]);
+        assert(l.hypergraph.adjacency@[i].targets@[j].0 == f.h.t.values.table@[seg_at(ts, i, j)]);
+    }
+    assert forall|i: int| 0 <= i < f.s.table@.len() implies (#[trigger] r.s.table@[i]) == phi[f.s.table@[i] as int] by {
+        assert(ids(mid.sources@)[i] == mid.sources@[i].0); assert(ids(l.sources@)[i] == l.sources@[i].0);
+    }
+    assert forall|i: int| 0 <= i < f.t.table@.len() implies (#[trigger] r.t.table@[i]) == phi[f.t.table@[i] as int] by {
+        assert(ids(mid.targets@)[i] == mid.targets@[i].0); assert(ids(l.targets@)[i] == l.targets@[i].0);
+    }
+    phi
+}
+''')
+
+raw(r'''
+/// C10 round trip the other way: a lax diagram WITHOUT pending unifications -> strict -> lax is the diagram renumbered by a node
+/// bijection q: labels carried along q, every reference mapped through q, hyperedges and their labels in place, nothing pending
+pub proof fn lemma_roundtrip_lax<O: Clone, A: Clone>(l: OpenHypergraph<O, A>, r: crate::open_hypergraph::OpenHypergraph<O, A>, l2: OpenHypergraph<O, A>) -> (q: Seq<usize>)
+    requires l.wf(), l.hypergraph.quotient.0@.len() == 0, lawful_clone::<O>(), lawful_clone::<A>(), l.hypergraph.nodes@.len() <= usize::MAX,
+        is_strictification(r, l), r.wf(),
+        ids(l2.sources@) =~= r.s.table@, ids(l2.targets@) =~= r.t.table@, is_lax_of(l2.hypergraph, r.h),
+    ensures injective(q) && q.len() == l.hypergraph.nodes@.len() && in_bounds(q, l.hypergraph.nodes@.len() as int),
+        l2.hypergraph.nodes@.len() == l.hypergraph.nodes@.len(),
+        forall|i: int| 0 <= i < l.hypergraph.nodes@.len() ==> l2.hypergraph.nodes@[(#[trigger] q[i]) as int] == l.hypergraph.nodes@[i],
+        l2.hypergraph.edges@ == l.hypergraph.edges@,
+        l2.hypergraph.adjacency@.len() == l.hypergraph.adjacency@.len(),
+        forall|j: int| 0 <= j < l.hypergraph.adjacency@.len() ==> mapped(l.hypergraph.adjacency@[j].sources@, (#[trigger] l2.hypergraph.adjacency@[j]).sources@, q)
+            && mapped(l.hypergraph.adjacency@[j].targets@, l2.hypergraph.adjacency@[j].targets@, q),
+        mapped(l.sources@, l2.sources@, q) && mapped(l.targets@, l2.targets@, q),
+        l2.hypergraph.quotient.0@.len() == 0 && l2.hypergraph.quotient.1@.len() == 0,
+{
+    let (mid, qf) = choose|mid: OpenHypergraph<O, A>, q: FiniteFunction|
+        #[trigger] is_quotient_of(l.hypergraph, mid.hypergraph, q)
+        && mapped(l.sources@, mid.sources@, q.table@) && mapped(l.targets@, mid.targets@, q.table@)
+        && is_strict_of(r.h, mid.hypergraph) && r.s.table@ =~= ids(mid.sources@) && r.t.table@ =~= ids(mid.targets@)
+        && (lawful_clone::<O>() ==> r.h.w@ == mid.hypergraph.nodes@) && (lawful_clone::<A>() ==> r.h.x@ == mid.hypergraph.edges@);
+    let n = l.hypergraph.nodes@.len() as int;
+    let q = qf.table@;
+    lemma_coeq_empty(q, qf.target as int, ids(l.hypergraph.quotient.0@), ids(l.hypergraph.quotient.1@), n);
+    let sl = src_lens(mid.hypergraph.adjacency@); let tl = tgt_lens(mid.hypergraph.adjacency@);
+    let ss = r.h.s.sources.table@; let ts = r.h.t.sources.table@;
+    assert(sl =~= ss && tl =~= ts);
+    assert forall|j: int| 0 <= j < l.hypergraph.adjacency@.len() implies mapped(l.hypergraph.adjacency@[j].sources@, (#[trigger] l2.hypergraph.adjacency@[j]).sources@, q)
+            && mapped(l.hypergraph.adjacency@[j].targets@, l2.hypergraph.adjacency@[j].targets@, q) by {
+        let a = l.hypergraph.adjacency@[j]; let m = mid.hypergraph.adjacency@[j]; let b = l2.hypergraph.adjacency@[j];
+        assert(mapped(a.sources@, m.sources@, q) && mapped(a.targets@, m.targets@, q));
+        vstd::std_specs::vec::axiom_spec_len(&m.sources); vstd::std_specs::vec::axiom_spec_len(&m.targets);
+        assert(sl[j] == m.sources@.len() && tl[j] == m.targets@.len());
+        assert forall|k: int| 0 <= k < a.sources@.len() implies (#[trigger] b.sources@[k]).0 == q[a.sources@[k].0 as int] by {
+            assert(b.sources@[k].0 == r.h.s.values.table@[seg_at(ss, j, k)]);
+            assert(r.h.s.values.table@[seg_at(sl, j, k)] == m.sources@[k].0);
+        }
+        assert forall|k: int| 0 <= k < a.targets@.len() implies (#[trigger] b.targets@[k]).0 == q[a.targets@[k].0 as int] by {
+            assert(b.targets@[k].0 == r.h.t.values.table@[seg_at(ts, j, k)]);
+            assert(r.h.t.values.table@[seg_at(tl, j, k)] == m.targets@[k].0);
+        }
+    }
+    assert forall|i: int| 0 <= i < l.sources@.len() implies (#[trigger] l2.sources@[i]).0 == q[l.sources@[i].0 as int] by {
+        assert(ids(l2.sources@)[i] == r.s.table@[i]); assert(ids(mid.sources@)[i] == mid.sources@[i].0);
+    }
+    assert forall|i: int| 0 <= i < l.targets@.len() implies (#[trigger] l2.targets@[i]).0 == q[l.targets@[i].0 as int] by {
+        assert(ids(l2.targets@)[i] == r.t.table@[i]); assert(ids(mid.targets@)[i] == mid.targets@[i].0);
+    }
+    assert(ids(l2.sources@).len() == l2.sources@.len() && ids(l2.targets@).len() == l2.targets@.len());
+    assert(ids(mid.sources@).len() == mid.sources@.len() && ids(mid.targets@).len() == mid.targets@.len());
+    q
+}
+''')
+
+# ---------------------------------------------------------------------------------------------
+# C11: delete_edges removes exactly the named hyperedges (duplicates allowed), keeps the order of the survivors, touches
+# nothing else.  (rule T18: full-range drain; T8: enumerate; zip of two Vec IntoIter)
+# ---------------------------------------------------------------------------------------------
+raw(r'''
+/// the first n elements of s that are not marked, in order
+pub open spec fn kept<T>(s: Seq<T>, rm: Seq<bool>, n: int) -> Seq<T>
+    decreases n
+{
+    if n <= 0 { Seq::empty() } else if rm[n - 1] { kept(s, rm, n - 1) } else { kept(s, rm, n - 1).push(s[n - 1]) }
+}
+/// edge i is named by (the first m entries of) the id list
+pub open spec fn named_upto(ids: Seq<EdgeId>, m: int, i: int) -> bool { exists|k: int| 0 <= k < m && #[trigger] ids[k].0 == i }
+pub open spec fn named(ids: Seq<EdgeId>, i: int) -> bool { named_upto(ids, ids.len() as int, i) }
+/// number of marked positions among the first n
+pub open spec fn cnt(rm: Seq<bool>, n: int) -> int
+    decreases n
+{
+    if n <= 0 { 0 } else { cnt(rm, n - 1) + if rm[n - 1] { 1int } else { 0int } }
+}
+pub proof fn lemma_cnt_le(rm: Seq<bool>, n: int)
+    requires 0 <= n <= rm.len()
+    ensures 0 <= cnt(rm, n) <= n
+    decreases n
+{
+    if n > 0 { lemma_cnt_le(rm, n - 1); }
+}
+pub proof fn lemma_cnt_set(rm: Seq<bool>, i: int, n: int)
+    requires 0 <= i < rm.len(), !rm[i], 0 <= n <= rm.len()
+    ensures cnt(rm.update(i, true), n) == cnt(rm, n) + if i < n { 1int } else { 0int }
+    decreases n
+{
+    if n > 0 { lemma_cnt_set(rm, i, n - 1); }
+}
+pub proof fn lemma_cnt_zero(rm: Seq<bool>, n: int)
+    requires 0 <= n <= rm.len(), forall|i: int| 0 <= i < n ==> !rm[i]
+    ensures cnt(rm, n) == 0
+    decreases n
+{
+    if n > 0 { lemma_cnt_zero(rm, n - 1); }
+}
+pub proof fn lemma_cnt_pos(rm: Seq<bool>, n: int, i: int)
+    requires 0 <= i < n <= rm.len(), rm[i]
+    ensures cnt(rm, n) >= 1
+    decreases n
+{
+    lemma_cnt_le(rm, n - 1);
+    if i < n - 1 { lemma_cnt_pos(rm, n - 1, i); }
+}
+pub proof fn lemma_kept_none<T>(s: Seq<T>, rm: Seq<bool>, n: int)
+    requires 0 <= n <= s.len(), n <= rm.len(), forall|i: int| 0 <= i < n ==> !rm[i]
+    ensures kept(s, rm, n) =~= s.subrange(0, n)
+    decreases n
+{
+    if n > 0 { lemma_kept_none(s, rm, n - 1); }
+}
+''')
+
+group('impl<O, A> Hypergraph<O, A>')
+fn(LH, 'delete_edges', self_ty='Hypergraph', status='P', props=['C11'], rules={'t18': True, 'let_ty': {'edges': 'Vec<A>', 'adjacency': 'Vec<Hyperedge>'}},
+   requires=['old(self).edges@.len() == old(self).adjacency@.len()', 'forall|k: int| 0 <= k < edge_ids@.len() ==> (#[trigger] edge_ids@[k]).0 < old(self).edges@.len()'],
+   ensures=[('C11.delete_edges', '''exists|rm: Seq<bool>| rm.len() == old(self).edges@.len() && (forall|i: int| 0 <= i < rm.len() ==> (#[trigger] rm[i] <==> named(edge_ids@, i)))
+                && final(self).edges@ == kept(old(self).edges@, rm, rm.len() as int) && final(self).adjacency@ == kept(old(self).adjacency@, rm, rm.len() as int)'''),
+            ('C11.delete_edges-frame', 'final(self).nodes == old(self).nodes && final(self).quotient == old(self).quotient')],
+   loops={1: {'iter': 'it', 'invariant': ['edge_count == old(self).edges@.len()', 'remove@.len() == edge_count', 'self.edges == old(self).edges && self.adjacency == old(self).adjacency && self.nodes == old(self).nodes && self.quotient == old(self).quotient',
+                                         'it.seq().len() == edge_ids@.len()', 'forall|k: int| 0 <= k < edge_ids@.len() ==> *it.seq()[k] == edge_ids@[k]',
+                                         'forall|k: int| 0 <= k < edge_ids@.len() ==> (#[trigger] edge_ids@[k]).0 < edge_count',
+                                         'forall|i: int| 0 <= i < edge_count ==> (#[trigger] remove@[i] <==> named_upto(edge_ids@, it.index@ as int, i))',
+                                         'remove_count == cnt(remove@, edge_count as int)', 'any_removed <==> remove_count > 0']},
+          2: {'iter': 'it', 'invariant': ['rm.len() == e0.len() && e0.len() == a0.len()', 'remove@ == rm', 'self.nodes == old(self).nodes && self.quotient == old(self).quotient',
+                                         'it.seq().len() == e0.len()', 'forall|k: int| 0 <= k < e0.len() ==> (#[trigger] it.seq()[k]).0 == e0[k]', 'forall|k: int| 0 <= k < e0.len() ==> (#[trigger] it.seq()[k]).1 == a0[k]',
+                                         'vx_i2 == it.index@', 'edges@ == kept(e0, rm, it.index@ as int)', 'adjacency@ == kept(a0, rm, it.index@ as int)']}},
+   proofs=[('before:if edge_ids.is_empty()', '''let rm0 = Seq::new(edge_count as nat, |i: int| false);
+            if edge_ids@.len() == 0 {
+                lemma_kept_none(self.edges@, rm0, edge_count as int); lemma_kept_none(self.adjacency@, rm0, edge_count as int);
+                assert(self.edges@ =~= kept(self.edges@, rm0, rm0.len() as int) && self.adjacency@ =~= kept(self.adjacency@, rm0, rm0.len() as int));
+                assert forall|i: int| 0 <= i < rm0.len() implies (#[trigger] rm0[i] <==> named(edge_ids@, i)) by { }
+            }'''),
+           ('before:for edge_id in edge_ids', '''lemma_cnt_zero(remove@, edge_count as int);'''),
+           ('before:if !remove[edge_id.0]', '''assert(*edge_id == edge_ids@[it.index@ as int]);
+            lemma_cnt_le(remove@, edge_count as int);
+            if !remove@[edge_id.0 as int] { lemma_cnt_set(remove@, edge_id.0 as int, edge_count as int); lemma_cnt_le(remove@.update(edge_id.0 as int, true), edge_count as int); } else { lemma_cnt_pos(remove@, edge_count as int, edge_id.0 as int); }
+            let idx = it.index@ as int; let ids = edge_ids@; let e = edge_id.0 as int;
+            assert forall|i: int| 0 <= i < edge_count implies (named_upto(ids, idx + 1, i) <==> (named_upto(ids, idx, i) || i == e)) by {
+                if named_upto(ids, idx + 1, i) { let k = choose|k: int| 0 <= k < idx + 1 && #[trigger] ids[k].0 == i; if k < idx { assert(named_upto(ids, idx, i)); } }
+                if named_upto(ids, idx, i) { let k = choose|k: int| 0 <= k < idx && #[trigger] ids[k].0 == i; assert(0 <= k < idx + 1 && ids[k].0 == i); }
+                if i == e { assert(ids[idx].0 == i); }
+            }'''),
+           ('before:if !any_removed', '''let rm = remove@; lemma_cnt_le(rm, edge_count as int);
+            if !any_removed {
+                assert forall|i: int| 0 <= i < edge_count implies !rm[i] by { if rm[i] { lemma_cnt_pos(rm, edge_count as int, i); } }
+                lemma_kept_none(self.edges@, rm, edge_count as int); lemma_kept_none(self.adjacency@, rm, edge_count as int);
+                assert(self.edges@ =~= kept(self.edges@, rm, rm.len() as int) && self.adjacency@ =~= kept(self.adjacency@, rm, rm.len() as int));
+            }'''),
+           G('before:let mut edges = Vec::with_capacity', 'let ghost rm = remove@; let ghost e0 = self.edges@; let ghost a0 = self.adjacency@;'),
+           ('before:if !remove[i]', '''assert(it.seq()[it.index@ as int].0 == e0[it.index@ as int]);''')])
+endgroup()
+
+group('impl<O, A> OpenHypergraph<O, A>')
+fn(LO, 'delete_edges', self_ty='OpenHypergraph', status='P', props=['C11'],
+   requires=['old(self).hypergraph.edges@.len() == old(self).hypergraph.adjacency@.len()', 'forall|k: int| 0 <= k < edge_ids@.len() ==> (#[trigger] edge_ids@[k]).0 < old(self).hypergraph.edges@.len()'],
+   ensures=[('C11.open-delete_edges', '''exists|rm: Seq<bool>| rm.len() == old(self).hypergraph.edges@.len() && (forall|i: int| 0 <= i < rm.len() ==> (#[trigger] rm[i] <==> named(edge_ids@, i)))
+                && final(self).hypergraph.edges@ == kept(old(self).hypergraph.edges@, rm, rm.len() as int) && final(self).hypergraph.adjacency@ == kept(old(self).hypergraph.adjacency@, rm, rm.len() as int)'''),
+            ('C11.open-delete_edges-frame', 'final(self).hypergraph.nodes == old(self).hypergraph.nodes && final(self).hypergraph.quotient == old(self).hypergraph.quotient && final(self).sources == old(self).sources && final(self).targets == old(self).targets')])
+endgroup()
+
+raw(r'''
+// ---------------------------------------------------------------------------------------------
+// C11: delete_nodes_witness against the list model
+// ---------------------------------------------------------------------------------------------
+pub open spec fn named_node_upto(ids: Seq<NodeId>, m: int, i: int) -> bool { exists|k: int| 0 <= k < m && #[trigger] ids[k].0 == i }
+/// new number of a surviving node: the number of survivors before it
+pub open spec fn rank(rm: Seq<bool>, i: int) -> int { i - cnt(rm, i) }
+/// the reported renumbering is the right one on the first n positions
+pub open spec fn idx_ok(rm: Seq<bool>, ni: Seq<Option<usize>>, n: int) -> bool {
+    forall|i: int| 0 <= i < n ==> (#[trigger] ni[i]) == (if rm[i] { None::<usize> } else { Some(rank(rm, i) as usize) })
+}
+/// a reference list with the references to deleted nodes dropped and the others renumbered, order kept
+pub open spec fn renum(v: Seq<NodeId>, ni: Seq<Option<usize>>, n: int) -> Seq<NodeId>
+    decreases n
+{
+    if n <= 0 { Seq::empty() } else { match ni[v[n - 1].0 as int] { Some(y) => renum(v, ni, n - 1).push(NodeId(y)), None => renum(v, ni, n - 1) } }
+}
+/// pending unifications: a pair survives iff both ends do
+pub open spec fn renum_l(l: Seq<NodeId>, r: Seq<NodeId>, ni: Seq<Option<usize>>, n: int) -> Seq<NodeId>
+    decreases n
+{
+    if n <= 0 { Seq::empty() } else { match (ni[l[n - 1].0 as int], ni[r[n - 1].0 as int]) { (Some(a), Some(b)) => renum_l(l, r, ni, n - 1).push(NodeId(a)), _ => renum_l(l, r, ni, n - 1) } }
+}
+pub open spec fn renum_r(l: Seq<NodeId>, r: Seq<NodeId>, ni: Seq<Option<usize>>, n: int) -> Seq<NodeId>
+    decreases n
+{
+    if n <= 0 { Seq::empty() } else { match (ni[l[n - 1].0 as int], ni[r[n - 1].0 as int]) { (Some(a), Some(b)) => renum_r(l, r, ni, n - 1).push(NodeId(b)), _ => renum_r(l, r, ni, n - 1) } }
+}
+/// the identity renumbering changes nothing
+pub open spec fn ni_id(ni: Seq<Option<usize>>) -> bool { forall|i: int| 0 <= i < ni.len() ==> (#[trigger] ni[i]) == Some(i as usize) }
+pub proof fn lemma_renum_id(v: Seq<NodeId>, ni: Seq<Option<usize>>, n: int)
+    requires ni_id(ni), 0 <= n <= v.len(), ids_ok(v, ni.len() as int)
+    ensures renum(v, ni, n) =~= v.subrange(0, n)
+    decreases n
+{
+    if n > 0 { lemma_renum_id(v, ni, n - 1); assert(ni[v[n - 1].0 as int] == Some(v[n - 1].0)); }
+}
+pub proof fn lemma_renum_lr_id(l: Seq<NodeId>, r: Seq<NodeId>, ni: Seq<Option<usize>>, n: int)
+    requires ni_id(ni), 0 <= n <= l.len(), l.len() == r.len(), ids_ok(l, ni.len() as int), ids_ok(r, ni.len() as int)
+    ensures renum_l(l, r, ni, n) =~= l.subrange(0, n), renum_r(l, r, ni, n) =~= r.subrange(0, n)
+    decreases n
+{
+    if n > 0 { lemma_renum_lr_id(l, r, ni, n - 1); assert(ni[l[n - 1].0 as int] == Some(l[n - 1].0)); assert(ni[r[n - 1].0 as int] == Some(r[n - 1].0)); }
+}
+
+/// C11: `new` is `old` with the nodes marked by rm deleted, `ni` the reported renumbering
+pub open spec fn is_node_deletion<O, A>(old: Hypergraph<O, A>, new: Hypergraph<O, A>, rm: Seq<bool>, ni: Seq<Option<usize>>) -> bool {
+    let n = old.nodes@.len() as int;
+    &&& rm.len() == n && ni.len() == n && idx_ok(rm, ni, n)
+    &&& new.nodes@ == kept(old.nodes@, rm, n)
+    &&& new.edges == old.edges
+    &&& new.adjacency@.len() == old.adjacency@.len()
+    &&& (forall|j: int| 0 <= j < old.adjacency@.len() ==> (#[trigger] new.adjacency@[j]).sources@ == renum(old.adjacency@[j].sources@, ni, old.adjacency@[j].sources@.len() as int)
+            && new.adjacency@[j].targets@ == renum(old.adjacency@[j].targets@, ni, old.adjacency@[j].targets@.len() as int))
+    &&& new.quotient.0@ == renum_l(old.quotient.0@, old.quotient.1@, ni, old.quotient.0@.len() as int)
+    &&& new.quotient.1@ == renum_r(old.quotient.0@, old.quotient.1@, ni, old.quotient.0@.len() as int)
+}
+''')
+
+raw(r'''
+pub open spec fn del_post<O, A>(old: Hypergraph<O, A>, new: Hypergraph<O, A>, ids: Seq<NodeId>, ni: Seq<Option<usize>>) -> bool {
+    exists|rm: Seq<bool>| rm.len() == old.nodes@.len()
+        && (forall|i: int| 0 <= i < rm.len() ==> (#[trigger] rm[i] <==> named_node_upto(ids, ids.len() as int, i)))
+        && #[trigger] is_node_deletion(old, new, rm, ni)
+}
+
+/// nothing marked: the identity renumbering is a correct report and nothing changes
+pub proof fn lemma_delete_nothing<O, A>(h: Hypergraph<O, A>, ids: Seq<NodeId>, rm: Seq<bool>, ni: Seq<Option<usize>>)
+    requires h.wf(), rm.len() == h.nodes@.len(), forall|i: int| 0 <= i < rm.len() ==> !rm[i] && !named_node_upto(ids, ids.len() as int, i),
+        ni.len() == h.nodes@.len(), ni_id(ni), h.nodes@.len() <= usize::MAX,
+    ensures del_post(h, h, ids, ni)
+{
+    let n = h.nodes@.len() as int;
+    assert forall|i: int| 0 <= i < n implies (#[trigger] ni[i]) == (if rm[i] { None::<usize> } else { Some(rank(rm, i) as usize) }) by { lemma_cnt_zero(rm, i); }
+    lemma_kept_none(h.nodes@, rm, n);
+    assert(h.nodes@ =~= kept(h.nodes@, rm, n));
+    assert forall|j: int| 0 <= j < h.adjacency@.len() implies (#[trigger] h.adjacency@[j]).sources@ == renum(h.adjacency@[j].sources@, ni, h.adjacency@[j].sources@.len() as int)
+            && h.adjacency@[j].targets@ == renum(h.adjacency@[j].targets@, ni, h.adjacency@[j].targets@.len() as int) by {
+        lemma_renum_id(h.adjacency@[j].sources@, ni, h.adjacency@[j].sources@.len() as int);
+        lemma_renum_id(h.adjacency@[j].targets@, ni, h.adjacency@[j].targets@.len() as int);
+        assert(h.adjacency@[j].sources@ =~= renum(h.adjacency@[j].sources@, ni, h.adjacency@[j].sources@.len() as int));
+        assert(h.adjacency@[j].targets@ =~= renum(h.adjacency@[j].targets@, ni, h.adjacency@[j].targets@.len() as int));
+    }
+    lemma_renum_lr_id(h.quotient.0@, h.quotient.1@, ni, h.quotient.0@.len() as int);
+    assert(h.quotient.0@ =~= renum_l(h.quotient.0@, h.quotient.1@, ni, h.quotient.0@.len() as int));
+    assert(h.quotient.1@ =~= renum_r(h.quotient.0@, h.quotient.1@, ni, h.quotient.0@.len() as int));
+    assert(is_node_deletion(h, h, rm, ni));
+}
+''')
+
+group('impl<O, A> Hypergraph<O, A>')
+fn(LH, 'delete_nodes_witness', self_ty='Hypergraph', status='P', props=['C11'],
+   rules={'t9': True, 't15': True, 't18': True, 't19': True,
+          'let_ty': {'nodes': 'Vec<O>', 'new_index': 'Vec<Option<usize>>', 'quotient_left': 'Vec<NodeId>', 'quotient_right': 'Vec<NodeId>'}},
+   requires=['old(self).wf()', 'forall|k: int| 0 <= k < node_ids@.len() ==> (#[trigger] node_ids@[k]).0 < old(self).nodes@.len()'],
+   ensures=[('C11.delete_nodes', 'del_post(*old(self), *final(self), node_ids@, r@)')],
+   loops={1: {'iter': 'it', 'elem_ty': 'Option<usize>', 'invariant': ['vx_v1@.len() == it.index@', 'forall|i: int| 0 <= i < it.index@ ==> (#[trigger] vx_v1@[i]) == Some(i as usize)']},
+          2: {'iter': 'it', 'invariant': ['node_count == old(self).nodes@.len()', 'remove@.len() == node_count', '*self == *old(self)',
+                                         'it.seq().len() == node_ids@.len()', 'forall|k: int| 0 <= k < node_ids@.len() ==> *it.seq()[k] == node_ids@[k]',
+                                         'forall|k: int| 0 <= k < node_ids@.len() ==> (#[trigger] node_ids@[k]).0 < node_count',
+                                         'forall|i: int| 0 <= i < node_count ==> (#[trigger] remove@[i] <==> named_node_upto(node_ids@, it.index@ as int, i))',
+                                         'remove_count == cnt(remove@, node_count as int)', 'any_removed <==> remove_count > 0']},
+          3: {'iter': 'it', 'elem_ty': 'Option<usize>', 'invariant': ['vx_v3@.len() == it.index@', 'forall|i: int| 0 <= i < it.index@ ==> (#[trigger] vx_v3@[i]) == Some(i as usize)']},
+          4: {'iter': 'it', 'invariant': ['rm.len() == n0s.len()', 'remove@ == rm', 'new_index@.len() == n0s.len()', 'n0s.len() <= usize::MAX',
+                                         'it.seq().len() == n0s.len()', 'forall|k: int| 0 <= k < n0s.len() ==> (#[trigger] it.seq()[k]) == n0s[k]',
+                                         'vx_i4 == it.index@', 'nodes@ == kept(n0s, rm, it.index@ as int)', 'nodes@.len() == rank(rm, it.index@ as int)',
+                                         'idx_ok(rm, new_index@, it.index@ as int)', 'forall|i: int| it.index@ <= i < n0s.len() ==> (#[trigger] new_index@[i]) == None::<usize>',
+                                         'self.edges == old(self).edges && self.adjacency == old(self).adjacency && self.quotient == old(self).quotient']},
+          5: {'invariant': ['self.adjacency@.len() == adj0.len()', '0 <= vx_j5 <= adj0.len()', 'self.nodes@ == nodes1', 'self.edges == old(self).edges', 'self.quotient == old(self).quotient',
+                            'new_index@ == ni', 'ni.len() == n0',
+                            'forall|j: int| 0 <= j < vx_j5 ==> (#[trigger] self.adjacency@[j]).sources@ == renum(adj0[j].sources@, ni, adj0[j].sources@.len() as int) && self.adjacency@[j].targets@ == renum(adj0[j].targets@, ni, adj0[j].targets@.len() as int)',
+                            'forall|j: int| vx_j5 <= j < adj0.len() ==> (#[trigger] self.adjacency@[j]) == adj0[j]',
+                            'forall|j: int| 0 <= j < adj0.len() ==> ids_ok((#[trigger] adj0[j]).sources@, n0) && ids_ok(adj0[j].targets@, n0)'],
+              'decreases': 'adj0.len() - vx_j5'},
+          6: {'iter': 'it', 'elem_ty': 'NodeId', 'invariant': ['new_index@ == ni', 'ni.len() == n0', 'ids_ok(src0, n0)', 'it.seq().len() == src0.len()', 'forall|k: int| 0 <= k < src0.len() ==> *it.seq()[k] == src0[k]',
+                                                              'vx_v6@ == renum(src0, ni, it.index@ as int)'], 'body_pre': 'proof { assert(*node == src0[it.index@ as int]); }'},
+          7: {'iter': 'it', 'elem_ty': 'NodeId', 'invariant': ['new_index@ == ni', 'ni.len() == n0', 'ids_ok(tgt0, n0)', 'it.seq().len() == tgt0.len()', 'forall|k: int| 0 <= k < tgt0.len() ==> *it.seq()[k] == tgt0[k]',
+                                                              'vx_v7@ == renum(tgt0, ni, it.index@ as int)'], 'body_pre': 'proof { assert(*node == tgt0[it.index@ as int]); }'},
+          8: {'iter': 'it', 'invariant': ['new_index@ == ni', 'ni.len() == n0', 'ids_ok(q0, n0) && ids_ok(q1, n0)', 'q0.len() == q1.len()', 'it.seq().len() == q0.len()',
+                                         'forall|k: int| 0 <= k < q0.len() ==> *(#[trigger] it.seq()[k]).0 == q0[k]', 'forall|k: int| 0 <= k < q0.len() ==> *(#[trigger] it.seq()[k]).1 == q1[k]',
+                                         'quotient_left@ == renum_l(q0, q1, ni, it.index@ as int)', 'quotient_right@ == renum_r(q0, q1, ni, it.index@ as int)']}},
+   proofs=[('before:if node_ids.is_empty()', '''let rm0 = Seq::new(self.nodes@.len(), |i: int| false);
+            vstd::std_specs::vec::axiom_spec_len(&self.nodes);
+            if node_ids@.len() == 0 {
+                assert forall|ni: Seq<Option<usize>>| ni.len() == self.nodes@.len() && ni_id(ni) implies #[trigger] del_post(*self, *self, node_ids@, ni) by {
+                    lemma_delete_nothing(*self, node_ids@, rm0, ni);
+                }
+            }'''),
+           ('before:for node_id in node_ids', '''lemma_cnt_zero(remove@, node_count as int);'''),
+           ('before:if !remove[node_id.0]', '''assert(*node_id == node_ids@[it.index@ as int]);
+            lemma_cnt_le(remove@, node_count as int);
+            if !remove@[node_id.0 as int] { lemma_cnt_set(remove@, node_id.0 as int, node_count as int); lemma_cnt_le(remove@.update(node_id.0 as int, true), node_count as int); } else { lemma_cnt_pos(remove@, node_count as int, node_id.0 as int); }
+            let idx = it.index@ as int; let ids = node_ids@; let e = node_id.0 as int;
+            assert forall|i: int| 0 <= i < node_count implies (named_node_upto(ids, idx + 1, i) <==> (named_node_upto(ids, idx, i) || i == e)) by {
+                if named_node_upto(ids, idx + 1, i) { let k = choose|k: int| 0 <= k < idx + 1 && #[trigger] ids[k].0 == i; if k < idx { assert(named_node_upto(ids, idx, i)); } }
+                if named_node_upto(ids, idx, i) { let k = choose|k: int| 0 <= k < idx && #[trigger] ids[k].0 == i; assert(0 <= k < idx + 1 && ids[k].0 == i); }
+                if i == e { assert(ids[idx].0 == i); }
+            }'''),
+           ('before:if !any_removed', '''let rmx = remove@; lemma_cnt_le(rmx, node_count as int);
+            if !any_removed {
+                assert forall|i: int| 0 <= i < node_count implies !rmx[i] by { if rmx[i] { lemma_cnt_pos(rmx, node_count as int, i); } }
+                assert forall|ni: Seq<Option<usize>>| ni.len() == self.nodes@.len() && ni_id(ni) implies #[trigger] del_post(*self, *self, node_ids@, ni) by {
+                    lemma_delete_nothing(*self, node_ids@, rmx, ni);
+                }
+            }'''),
+           G('before:let mut new_index = vec![None; node_count];', 'let ghost rm = remove@; let ghost n0s = self.nodes@; let ghost n0 = self.nodes@.len() as int; let ghost adj0 = self.adjacency@; let ghost q0 = self.quotient.0@; let ghost q1 = self.quotient.1@;'),
+           ('before:if !remove[i]', '''assert(it.seq()[it.index@ as int] == n0s[it.index@ as int]); lemma_cnt_le(rm, it.index@ as int);'''),
+           G('before:for edge in &mut self.adjacency', 'let ghost ni = new_index@; let ghost nodes1 = self.nodes@;'),
+           G('before:edge.sources = edge', 'let ghost src0 = edge.sources@; let ghost tgt0 = edge.targets@; proof { assert(ids_ok(adj0[vx_j5 as int].sources@, n0) && ids_ok(adj0[vx_j5 as int].targets@, n0)); }'),
+           ('end', '''assert(is_node_deletion(*old(self), *self, rm, ni));''')])
+endgroup()
+
+group('impl<O, A> Hypergraph<O, A>')
+fn(LH, 'delete_nodes', self_ty='Hypergraph', status='P', props=['C11'],
+   requires=['old(self).wf()', 'forall|k: int| 0 <= k < node_ids@.len() ==> (#[trigger] node_ids@[k]).0 < old(self).nodes@.len()'],
+   ensures=[('C11.delete_nodes-unit', 'exists|ni: Seq<Option<usize>>| #[trigger] del_post(*old(self), *final(self), node_ids@, ni)')])
+endgroup()
+
+group('impl<O, A> OpenHypergraph<O, A>')
+fn(LO, 'delete_nodes', self_ty='OpenHypergraph', status='P', props=['C11'], rules={'t19': True},
+   requires=['old(self).wf()', 'forall|k: int| 0 <= k < node_ids@.len() ==> (#[trigger] node_ids@[k]).0 < old(self).hypergraph.nodes@.len()'],
+   ensures=[('C11.open-delete_nodes', '''exists|ni: Seq<Option<usize>>| #[trigger] del_post(old(self).hypergraph, final(self).hypergraph, node_ids@, ni)
+                && final(self).sources@ == renum(old(self).sources@, ni, old(self).sources@.len() as int)
+                && final(self).targets@ == renum(old(self).targets@, ni, old(self).targets@.len() as int)''')],
+   loops={1: {'iter': 'it', 'elem_ty': 'NodeId', 'invariant': ['new_index@.len() == n0', 'ids_ok(src0, n0)', 'it.seq().len() == src0.len()', 'forall|k: int| 0 <= k < src0.len() ==> *it.seq()[k] == src0[k]',
+                                                              'vx_v1@ == renum(src0, new_index@, it.index@ as int)'], 'body_pre': 'proof { assert(*n == src0[it.index@ as int]); }'},
+          2: {'iter': 'it', 'elem_ty': 'NodeId', 'invariant': ['new_index@.len() == n0', 'ids_ok(tgt0, n0)', 'it.seq().len() == tgt0.len()', 'forall|k: int| 0 <= k < tgt0.len() ==> *it.seq()[k] == tgt0[k]',
+                                                              'vx_v2@ == renum(tgt0, new_index@, it.index@ as int)'], 'body_pre': 'proof { assert(*n == tgt0[it.index@ as int]); }'}},
+   proofs=[G('start', 'let ghost n0 = self.hypergraph.nodes@.len() as int; let ghost src0 = self.sources@; let ghost tgt0 = self.targets@;'),
+           ('after:let new_index = self.hypergraph.delete_nodes_witness(node_ids);', '''let rm = choose|rm: Seq<bool>| rm.len() == old(self).hypergraph.nodes@.len()
+                && (forall|i: int| 0 <= i < rm.len() ==> (#[trigger] rm[i] <==> named_node_upto(node_ids@, node_ids@.len() as int, i)))
+                && #[trigger] is_node_deletion(old(self).hypergraph, self.hypergraph, rm, new_index@);
+            assert(new_index@.len() == n0);'''),
+           G('after:let new_index = self.hypergraph.delete_nodes_witness(node_ids);', 'let ghost hg1 = self.hypergraph;'),
+           ('close', '''assert(self.hypergraph == hg1);
+            assert(del_post(old(self).hypergraph, self.hypergraph, node_ids@, new_index@));''')])
+endgroup()
+
+group('impl<O, A> Hypergraph<O, A>')
+fn(LH, 'with_nodes', self_ty='Hypergraph', status='P', props=['C11'],
+   requires=['f.requires((self.nodes,))'],
+   ensures=[('C11.with_nodes', '''exists|nn: Vec<T>| f.ensures((self.nodes,), nn) && (r.is_some() <==> nn@.len() == self.nodes@.len())
+                && (r.is_some() ==> r.unwrap().nodes == nn && r.unwrap().edges == self.edges && r.unwrap().adjacency == self.adjacency && r.unwrap().quotient == self.quotient)''')])
+fn(LH, 'with_edges', self_ty='Hypergraph', status='P', props=['C11'],
+   requires=['f.requires((self.edges,))'],
+   ensures=[('C11.with_edges', '''exists|ne: Vec<T>| f.ensures((self.edges,), ne) && (r.is_some() <==> ne@.len() == self.edges@.len())
+                && (r.is_some() ==> r.unwrap().edges == ne && r.unwrap().nodes == self.nodes && r.unwrap().adjacency == self.adjacency && r.unwrap().quotient == self.quotient)''')])
+endgroup()
+
+group('impl<O, A> Hypergraph<O, A>')
+fn(LH, 'map_nodes', self_ty='Hypergraph', status='P', props=['C11'], rules={'t9': True},
+   requires=['forall|o: O| #[trigger] f.requires((o,))'],
+   ensures=[('C11.map_nodes', '''r.nodes@.len() == self.nodes@.len() && (forall|i: int| 0 <= i < self.nodes@.len() ==> f.ensures((self.nodes@[i],), #[trigger] r.nodes@[i]))
+                && r.edges == self.edges && r.adjacency == self.adjacency && r.quotient == self.quotient''')],
+   closures={1: {'header': '|nodes: Vec<O>| -> (rr: Vec<T>)', 'spec': 'requires forall|o: O| #[trigger] f.requires((o,)) ensures rr@.len() == nodes@.len() && (forall|i: int| 0 <= i < nodes@.len() ==> f.ensures((nodes@[i],), #[trigger] rr@[i])),'}},
+   loops={1: {'iter': 'it', 'elem_ty': 'T', 'invariant': ['forall|o: O| #[trigger] f.requires((o,))', 'vx_v1@.len() == it.index@', 'it.seq() == nodes@',
+                                                         'forall|i: int| 0 <= i < it.index@ ==> f.ensures((nodes@[i],), #[trigger] vx_v1@[i])']}})
+endgroup()
+
+group('impl<O, A> Hypergraph<O, A>')
+fn(LH, 'map_edges', self_ty='Hypergraph', status='P', props=['C11'], rules={'t9': True},
+   requires=['forall|o: A| #[trigger] f.requires((o,))'],
+   ensures=[('C11.map_edges', '''r.edges@.len() == self.edges@.len() && (forall|i: int| 0 <= i < self.edges@.len() ==> f.ensures((self.edges@[i],), #[trigger] r.edges@[i]))
+                && r.nodes == self.nodes && r.adjacency == self.adjacency && r.quotient == self.quotient''')],
+   closures={1: {'header': '|edges: Vec<A>| -> (rr: Vec<T>)', 'spec': 'requires forall|o: A| #[trigger] f.requires((o,)) ensures rr@.len() == edges@.len() && (forall|i: int| 0 <= i < edges@.len() ==> f.ensures((edges@[i],), #[trigger] rr@[i])),'}},
+   loops={1: {'iter': 'it', 'elem_ty': 'T', 'invariant': ['forall|o: A| #[trigger] f.requires((o,))', 'vx_v1@.len() == it.index@', 'it.seq() == edges@',
+                                                         'forall|i: int| 0 <= i < it.index@ ==> f.ensures((edges@[i],), #[trigger] vx_v1@[i])']}})
+endgroup()
+
+group('impl<O, A> OpenHypergraph<O, A>')
+fn(LO, 'map_nodes', self_ty='OpenHypergraph', status='P', props=['C11'],
+   requires=['forall|o: O| #[trigger] f.requires((o,))'],
+   ensures=[('C11.open-map_nodes', '''r.hypergraph.nodes@.len() == self.hypergraph.nodes@.len() && (forall|i: int| 0 <= i < self.hypergraph.nodes@.len() ==> f.ensures((self.hypergraph.nodes@[i],), #[trigger] r.hypergraph.nodes@[i]))
+                && r.hypergraph.edges == self.hypergraph.edges && r.hypergraph.adjacency == self.hypergraph.adjacency && r.hypergraph.quotient == self.hypergraph.quotient
+                && r.sources == self.sources && r.targets == self.targets''')])
+fn(LO, 'map_edges', self_ty='OpenHypergraph', status='P', props=['C11'],
+   requires=['forall|o: A| #[trigger] f.requires((o,))'],
+   ensures=[('C11.open-map_edges', '''r.hypergraph.edges@.len() == self.hypergraph.edges@.len() && (forall|i: int| 0 <= i < self.hypergraph.edges@.len() ==> f.ensures((self.hypergraph.edges@[i],), #[trigger] r.hypergraph.edges@[i]))
+                && r.hypergraph.nodes == self.hypergraph.nodes && r.hypergraph.adjacency == self.hypergraph.adjacency && r.hypergraph.quotient == self.hypergraph.quotient
+                && r.sources == self.sources && r.targets == self.targets''')])
 endgroup()
